@@ -12,6 +12,9 @@ use std::path::PathBuf;
 use std::sync::Arc;
 
 use cascette_crypto::EncodingKey;
+#[cfg(feature = "verif-hooks")]
+use crate::verif_hooks::RwLock;
+#[cfg(not(feature = "verif-hooks"))]
 use parking_lot::RwLock;
 use tracing::{debug, warn};
 
@@ -437,6 +440,8 @@ impl Container for DynamicContainer {
             })?
         };
 
+        #[cfg(feature = "verif-hooks")]
+        crate::verif_hooks::sched_point("dyn.read.after_lookup");
         let archive_id = entry.archive_id();
         let archive_offset = entry.archive_offset();
         let entry_size = entry.size;
@@ -512,6 +517,8 @@ impl Container for DynamicContainer {
             archive.write_content(data, false)?
         };
 
+        #[cfg(feature = "verif-hooks")]
+        crate::verif_hooks::sched_point("dyn.write.after_archive_write");
         debug!(
             "wrote key {} to archive {} at offset {:#x}, size {}",
             hex::encode(&key[..9]),
@@ -533,12 +540,16 @@ impl Container for DynamicContainer {
             )?;
         }
 
+        #[cfg(feature = "verif-hooks")]
+        crate::verif_hooks::sched_point("dyn.write.after_index_add");
         // Touch LRU cache to keep this key from eviction.
         if let Some(ref lru) = self.lru {
             let ekey_9: [u8; 9] = encoding_key[..9].try_into().unwrap_or([0; 9]);
             lru.write().touch(&ekey_9);
         }
 
+        #[cfg(feature = "verif-hooks")]
+        crate::verif_hooks::sched_point("dyn.write.before_save");
         // Persist the updated index to disk
         {
             let index = self.index.read();
@@ -563,6 +574,8 @@ impl Container for DynamicContainer {
             index.remove_entry(&ekey)
         };
 
+        #[cfg(feature = "verif-hooks")]
+        crate::verif_hooks::sched_point("dyn.remove.after_remove_entry");
         if removed {
             debug!("removed key {} from index", hex::encode(&key[..9]));
             // Persist the updated index
